@@ -25,7 +25,7 @@ RULE = ("cells = (algorithm in 14 JWS + 21 JWE algs) x (violated clause: wrong k
         "jwt.encode/decode, add_recipient pre-attached key, sender_key) x key hand-over (key, key set, callable); key material is "
         "Hypothesis-generated per cell. Extra families: HS256/384/512 tokens MACed by the reference with each public encoding (PEM SPKI, "
         "PKCS1, DER, OpenSSH, JWK JSON text, raw numbers) of the verifier's RSA/EC/OKP key; every PEM/OpenSSH text encoding of "
-        "asymmetric keys passed to OctKey.import_key must warn. Oracle: MUST_REJECT (any exception, nothing returned). A control with "
+        "asymmetric keys (also preceded by blanks) taken as a symmetric secret - OctKey.import_key, JWKRegistry.import_key, raw key or key callable of jws.* / jwt.* - must draw a warning that an ordinary secret on the same path does not get; ECDH-1PU sender keys (single or an entry of a key set named by skid) declared for signatures must be refused on both directions. Oracle: MUST_REJECT (any exception, nothing returned). A control with "
         "the suitable key runs per cell (success rate reported). distinct = (alg, clause, variant, op, entry, key mode).")
 ASSUMPTIONS = ["DONT_CARE (statement silent): key_ops for dir and for ECDH agreement, RSA key size on decryption, 'alg' member of the key",
                "RSA: encrypt side needs encrypt or wrapKey, decrypt side decrypt or unwrapKey - only key_ops with neither count as unsuitable",
